@@ -63,4 +63,10 @@ theorem genSeq_inv (Δ : Decls) (o : Opts) (f : Nat) : ∀ (pre : List GoType) (
     have ha1 := (genSeq_mono Δ o f ts _).2 ha
     exact genSeq_inv Δ o f ts _ hp.2 (genRef_root_inv Δ o f "_root" t σ hp.1 hi ha1) ha
 
+/-- termination does not depend on the generator state: the fuel bound of `gen_finite` suffices for a root call from ANY
+    state (a type-table hit only shortens the run) -/
+theorem gen_enough_fuel_state (Δ : Decls) (o : Opts) (t : GoType) (fuel : Nat) (σ : St) (h : enoughFuel Δ t ≤ fuel) :
+    (genRef Δ o fuel [] "_root" t σ).1 ≠ .nofuel :=
+  stmt_all Δ o Δ.length [] t (unvisited_le Δ []) "_root" σ fuel h
+
 end KinModel.Gen3
